@@ -63,7 +63,7 @@ def _slice_sk():
 
 def _inject(scratch):
     with open(os.path.join(scratch, "zkchannels-crypto/src/pointcheval_sanders.rs"), "a") as f:
-        f.write("\n#[cfg(kani)]\nfn vx_kani_sk_scalars<const N: usize>(rng: &mut impl Rng, g1: &G1Projective) -> (Scalar, [Scalar; N]) {\n        %s\n        (x, ys)\n}\n" % _slice_sk())
+        f.write("\n#[cfg(kani)]\nfn vx_kani_sk_scalars<const N: usize>(rng: &mut impl Rng, g1: &G1Projective) -> (Scalar, Vec<Scalar>) {\n        %s\n        (x, ys.iter().copied().collect::<Vec<Scalar>>())\n}\n" % _slice_sk())
         f.write('#[cfg(kani)]\npub(crate) mod verif_kani_ps { include!("%s"); }\n' % os.path.join(VERIF, "kani/harness/zc_ps.rs"))
     with open(os.path.join(scratch, "zkchannels-crypto/src/proofs/commitment.rs"), "a") as f:
         f.write('\n#[cfg(kani)]\nmod verif_kani_cproof { include!("%s"); }\n' % os.path.join(VERIF, "kani/harness/zc_commitment.rs"))
